@@ -135,12 +135,12 @@ func GenMVal(ctrl, floats bool, depth int) *rapid.Generator[MVal] {
 
 func GenMObj(ctrl, floats bool) *rapid.Generator[MObj] {
 	return rapid.Custom(func(t *rapid.T) MObj {
-		switch rapid.IntRange(0, 6).Draw(t, "objkind") {
-		case 0:
+		switch rapid.IntRange(0, 17).Draw(t, "objkind") {
+		case 0, 1, 2:
 			return nil
-		case 1:
+		case 3, 4, 5:
 			return MObj{}
-		case 6:
+		case 17:
 			// bulk: what a package manager or a test runner prints in structured form - a long list of
 			// small lists, or lists nested far deeper than any fixture
 			if rapid.Bool().Draw(t, "bulkdeep") {
